@@ -157,6 +157,28 @@ class OneOf(Cmp):
         return []
 
 
+class Ambiguous(Cmp):
+    """Exactly *want*; while known finding *fid* is listed, one of *alternatives* is
+    tolerated (and counted)."""
+
+    def __init__(self, want, alternatives, fid):
+        self.want = want
+        self.alternatives = list(alternatives)
+        self.fid = fid
+
+    def json(self):
+        return {'want': self.want, 'alt': self.alternatives}
+
+    def diff(self, obs, path):
+        if canon(obs) == canon(self.want):
+            return []
+        if self.fid in ENABLED_FINDINGS and canon(obs) in [canon(a) for a in self.alternatives]:
+            note_known(self.fid)
+            return []
+        return [(path, 'value mismatch', {'expected': self.want, 'observed': obs,
+                                          'same_id_elsewhere': self.alternatives})]
+
+
 class Any(Cmp):
     """No promise."""
 
